@@ -39,7 +39,7 @@ def _sift(which, n, tier, timeout=600):
     fn = 'heap_' + which
     return Group(id='C02.L1.%s.n%d' % (fn, n), prop='C02', harness='sift.c', entry='h_' + which, defines=['H_' + which.upper(), 'NS=%du' % n], level='bounded-shape',
           bound='arbitrary heap of <= %d entries satisfying the call-site precondition of %s, any index; loops fully unwound with unwinding assertions' % (n, fn),
-          backend='sat', timeout=timeout, tier=tier, unwind=n + 3, canaries=2, functions=[fn], also=['C01', 'C06', 'C10'],
+          backend='sat', timeout=timeout, tier=tier, unwind=n + 3, canaries=2, functions=[fn], also=['C01', 'C10'],
           assumes=['the configured comparison is a strict weak order (proved for the five real ones in C02.L4)',
                    'the precondition is what the callers (enqueue / dequeue / remove / reprioritize) establish: checked with the real callers at capacity 2 (C02.L3), by transitivity of the order above'])
 # n = 3 is the smallest heap with a right child (13 s solo); n = 5 (two levels below the root) takes minutes: thorough.  n = 7 did not finish in 600 s: not registered.
